@@ -677,8 +677,10 @@ func arraysRun[T num, A arr[T, A]](k kit[T, A], rc *RunCtx, o *Outcome) {
 					fam, tag = "cdiff:bulk", "c/"
 				}
 				if got := a.Contiguous(); got != cons {
-					// both back-ends share the predicate: a wrong answer is the array package's
-					x.fail("bulk", "contiguity-predicate", "contiguous", "%s.Contiguous() = %v but its elements are at storage offsets %v (adjacent: %v)", rv.how, got, head(rv.offs, 24), cons)
+					// the Go-backed array is evaluated first: a wrong answer there is the array package's
+					// (the predicate is shared); a wrong answer of the C-backed twin alone is a
+					// difference between the back-ends
+					x.fail(fam, "contiguity-predicate", tag+"contiguous", "%s.Contiguous() = %v but its elements are at storage offsets %v (adjacent: %v)", rv.how, got, head(rv.offs, 24), cons)
 					return
 				}
 				u := a.Unroll()
@@ -746,12 +748,12 @@ func arraysRun[T num, A arr[T, A]](k kit[T, A], rc *RunCtx, o *Outcome) {
 				}
 				res, err := a.Reshape(newShape)
 				if (err != nil) != mismatch {
-					x.fail("bulk", "reshape-error-contract", "reshape/error", "%s returned error %v; element counts %d vs %d", what, err, n, product(newShape))
+					x.fail(fam, "reshape-error-contract", tag+"reshape/error", "%s returned error %v; element counts %d vs %d", what, err, n, product(newShape))
 					return
 				}
 				_, ferr := a.ReshapeFast(newShape)
 				if (ferr != nil) != (mismatch || !cons) {
-					x.fail("bulk", "reshapefast-error-contract", "reshapefast/error", "%s.ReshapeFast(%v) returned error %v; view contiguous: %v, counts match: %v", rv.how, newShape, ferr, cons, !mismatch)
+					x.fail(fam, "reshapefast-error-contract", tag+"reshapefast/error", "%s.ReshapeFast(%v) returned error %v; view contiguous: %v, counts match: %v", rv.how, newShape, ferr, cons, !mismatch)
 					return
 				}
 				if mismatch {
@@ -801,7 +803,10 @@ func arraysRun[T num, A arr[T, A]](k kit[T, A], rc *RunCtx, o *Outcome) {
 			}
 			layout := w.Choose(5)
 			which := w.Choose(3)
-			names := []string{"Scale", "AddTo", "ApplyFunc1"}
+			// the factor: mostly 3, sometimes one of the values an implementation might treat
+			// specially (1: nothing to multiply, 0: everything becomes zero, 2)
+			scaleBy := []int{3, 3, 3, 1, 1, 0, 2}[w.Choose(7)]
+			names := []string{fmt.Sprintf("Scale by %d", scaleBy), "AddTo", "ApplyFunc1"}
 			what := fmt.Sprintf("%s(dest %s, %s source)", names[which], rv.how, layoutNames[layout])
 			x.log = append(x.log, what)
 			var aSrc *aliasSrc[T, A]
@@ -828,7 +833,7 @@ func arraysRun[T num, A arr[T, A]](k kit[T, A], rc *RunCtx, o *Outcome) {
 					}
 					switch which {
 					case 0:
-						r.store[off] = float64(T(sval) * 3)
+						r.store[off] = float64(T(sval) * T(scaleBy))
 					case 1:
 						r.store[off] = float64(T(r.store[off]) + T(sval))
 					case 2:
@@ -877,7 +882,7 @@ func arraysRun[T num, A arr[T, A]](k kit[T, A], rc *RunCtx, o *Outcome) {
 				}
 				switch which {
 				case 0:
-					k.scale(a, src, T(3))
+					k.scale(a, src, T(scaleBy))
 				case 1:
 					k.addTo(a, src)
 				case 2:
@@ -901,6 +906,8 @@ func arraysRun[T num, A arr[T, A]](k kit[T, A], rc *RunCtx, o *Outcome) {
 		default:
 			if w.Choose(400) == 399 {
 				hugeCProbe(k, x, w)
+			} else if w.Choose(60) == 59 {
+				largeBlockProbe(k, x, w)
 			} else if w.Choose(6) == 5 {
 				// a failing call: an out-of-range block write on a scratch array that is not in the
 				// pool panics part-way and is recovered by the caller; nothing is asserted about the
@@ -1367,4 +1374,96 @@ func hugeCProbe[T num, A arr[T, A]](k kit[T, A], x *arrCtx, w *simrt.Tape) {
 		return
 	}
 	x.o.probe("huge_c_buffer_probe(>2^28_elements)")
+}
+
+
+// largeBlockProbe: block writes of more than 65536 elements (where an implementation might switch
+// to chunked or parallel copying): a block shifted towards the front inside its own storage (the
+// element-by-element definition reads every source element before any step overwrites it, so the
+// order of the steps does not matter), then a fresh block over the whole array; Go- and C-backed.
+func largeBlockProbe[T num, A arr[T, A]](k kit[T, A], x *arrCtx, w *simrt.Tape) {
+	cols := 1 + w.Choose(64)
+	rows := (65536+w.Choose(70000))/cols + 3
+	n := rows * cols
+	shift := 1 + w.Choose(2)
+	useApplySlice := w.Bool(50)
+	gv := make([]T, n)
+	ref := make([]float64, n)
+	for i := range gv {
+		gv[i] = T(1 + i%251)
+		ref[i] = float64(gv[i])
+	}
+	ga := k.fromSlice(gv, []int{rows, cols})
+	cb := allocC(n*k.cSize, false, true)
+	ca := k.newC(cb.ptr, []int{rows, cols})
+	for i := 0; i < n; i++ {
+		k.cSet(cb, i, ref[i])
+	}
+	what := fmt.Sprintf("%s array [%d %d] (%d elements): rows %d.. copied onto rows 0.. of the same storage, then a fresh block over everything", k.name, rows, cols, n, shift)
+	x.log = append(x.log, what)
+	m := (rows - shift) * cols
+	for i := 0; i < m; i++ {
+		ref[i] = ref[i+shift*cols]
+	}
+	fresh := make([]T, n)
+	for i := range fresh {
+		fresh[i] = T(3 + i%127)
+	}
+	for pass, a := range []A{ga, ca} {
+		fam, tag := "write", "go/"
+		if pass == 1 {
+			fam, tag = "cdiff:write", "c/"
+		}
+		var escaped interface{}
+		func() {
+			defer func() { escaped = recover() }()
+			dest := a.Slice([]int{0, 0}, []int{rows - shift, cols}, nil)
+			src := a.Slice([]int{shift, 0}, []int{rows - shift, cols}, nil)
+			if useApplySlice {
+				a.ApplySlice([]int{0, 0}, nil, src)
+			} else {
+				dest.CopyFrom(src)
+			}
+		}()
+		if escaped != nil {
+			x.fail(fam, "panic", tag+"large-block", "%s panicked: %v", what, escaped)
+			return
+		}
+		for i := 0; i < n; i++ {
+			got := float64(gv[i])
+			if pass == 1 {
+				got = k.cGet(cb, i)
+			}
+			if got != ref[i] {
+				x.fail(fam, "storage-differs", tag+"large-block", "%s: after the shift storage element %d is %v, element by element it is %v", what, i, got, ref[i])
+				return
+			}
+		}
+	}
+	for pass, a := range []A{ga, ca} {
+		fam, tag := "write", "go/"
+		if pass == 1 {
+			fam, tag = "cdiff:write", "c/"
+		}
+		var escaped interface{}
+		func() {
+			defer func() { escaped = recover() }()
+			a.CopyFrom(k.fromSlice(append([]T(nil), fresh...), []int{rows, cols}))
+		}()
+		if escaped != nil {
+			x.fail(fam, "panic", tag+"large-block", "%s panicked in the second copy: %v", what, escaped)
+			return
+		}
+		for i := 0; i < n; i += 1 + i%7 {
+			got := float64(gv[i])
+			if pass == 1 {
+				got = k.cGet(cb, i)
+			}
+			if got != float64(fresh[i]) {
+				x.fail(fam, "storage-differs", tag+"large-block", "%s: after the whole-array copy storage element %d is %v, the source has %v", what, i, got, fresh[i])
+				return
+			}
+		}
+	}
+	x.o.probe("block_write_of_more_than_65536_elements")
 }
